@@ -4,7 +4,7 @@ NOT_CLAIMED = {}
 CLAIMED = {
  "C19": {
   "technique": "model-based testing: exhaustive + random operation histories executed for real on fresh threads in child processes against an abstract model; lock-step two-thread interleavings",
-  "text": "Exploration: every well-bracketed history up to length 5 (quick) / 7 (thorough) over {enable, disable, enter catch_panic, return, panic(unique message), set hook again, set fallback Continue, get backtrace} plus random histories up to length 30, each run on a fresh thread in a child process whose sentinel hook was installed before the catcher's; after every step the nesting level (verif hook), every catch_panic result (Ok(v) / Err(text containing the message)), what the previously installed hook received, and the recorded backtrace equal the model's; a final probe panic outside any frame must reach the previous hook; two histories interleaved step by step (scheduler thread) must each observe exactly what they observe alone; dedicated children check fallback mode Abort (SIGABRT); fresh children race the first installation of the hook at generated offsets (interleaving chosen through the verif-hooks pauses) while other threads catch panics.",
+  "text": "Exploration: every well-bracketed history up to length 5 (quick) / 7 (thorough) over {enable, disable, enter catch_panic, return, panic(unique message), set hook again, set fallback Continue, get backtrace} plus random histories up to length 30, each run on a fresh thread in a child process whose sentinel hook was installed before the catcher's; after every step the nesting level (verif hook), every catch_panic result (Ok(v) / Err(text containing the message)), what the previously installed hook received, and the recorded backtrace equal the model's; a final probe panic outside any frame must reach the previous hook; two histories interleaved step by step (scheduler thread) must each observe exactly what they observe alone; panics that unwind past a destructor calling catch_panic, panic messages up to 70 KiB; dedicated children check fallback mode Abort (SIGABRT); fresh children race the first installation of the hook at generated offsets (interleaving chosen through the verif-hooks pauses) while other threads catch panics.",
   "note": "Only string payloads, no resume_unwind; interleavings are at step granularity (finer races such as the non-atomic check-then-set in panic_catcher_set_hook are not reached).",
   "ref": "DESIGN.md section 3, C19",
  },
@@ -18,7 +18,7 @@ CLAIMED = {
 
  "C11": {
   "technique": "property-based testing of generated regexes against a position-set reference matcher + exhaustive wildcard patterns against a DP reference + metamorphic size-limit checks",
-  "text": "Exploration: regexes from a subset grammar (literals incl. escapes and \\xHH, ., classes with ranges/negation/quotes, ?*+, alternation, groups, ^ $ \\A \\z, word assertions \\b \\B \\< \\>, \\d \\w \\s and negations, counted and lazy repetition, (?ism:) groups) written quoted and raw, at top level and nested in parentheses / double negation / an or-operand: the AST carries exactly the pattern and the match result equals an independent position-set matcher on ~13 values each (non-UTF-8, newlines, case flips, empty); every wildcard pattern over {a,B,*,\\,?} up to length 6 (quick) / 8 (thorough) in quoted/escaped/raw forms, both operators, star limits 0..4: rejected exactly for invalid escapes, trailing backslash, ** and too many stars, accepted ones agree with a DP matcher (ASCII case folding iff not strict); regex size limits behave monotonically.",
+  "text": "Exploration: regexes from a subset grammar (literals incl. escapes and \\xHH, ., classes with ranges/negation/quotes, ?*+, alternation, groups, ^ $ \\A \\z, word assertions \\b \\B \\< \\>, \\d \\w \\s and negations, counted and lazy repetition, (?ism:) groups) written quoted and raw, at top level and nested in parentheses / double negation / an or-operand: the AST carries exactly the pattern and the match result equals an independent position-set matcher on ~13 values each (non-UTF-8, newlines, case flips, empty); every wildcard pattern over {a,B,*,\\,?} up to length 6 (quick) / 8 (thorough) in quoted/escaped/raw forms, both operators, star limits 0..4: rejected exactly for invalid escapes, trailing backslash, ** and too many stars, accepted ones agree with a DP matcher (ASCII case folding iff not strict); regex size limits behave monotonically and independently of what was parsed before; 360 regex idioms (anchors x bodies x flag groups) on values with line breaks; wildcard values up to 1.5 KB with literals straddling offsets 256/512.",
   "note": "Nested character classes and a leading ] in a class are not generated (the quoted scanner's treatment is unspecified); size thresholds are only checked for monotonicity, default-accepts and one impossibility bound.",
   "ref": "DESIGN.md section 3, C11",
  },
@@ -37,7 +37,7 @@ CLAIMED = {
  },
  "C20": {
   "technique": "differential property testing (C API called from the rlib vs Rust API on the same scheme) + failure-sequence histories + interleaved threads + child process for panics",
-  "text": "Exploration: schemes are built through the C constructors (the same registrations, incl. names with NUL / blanks / non-ASCII / invalid UTF-8, give the same answers, errors and scheme as the Rust builder); generated filters (well-typed, mutated, NUL-containing, invalid UTF-8) give the same parse outcome with last-error = ParseError text (NUL -> 0x1A), the same AST JSON, equal hashes for equal JSON, the same uses/uses_list, the same context serialisation (typed setters and JSON setter) and the same match results (also vs the reference evaluator); histories of failing/succeeding/clear calls over 12 kinds of failures check that every failure sets a well-formed, NUL-terminated last error with no interior NUL; two threads interleaved step by step see exactly the errors they see alone; a child process checks Status::Panic for a user function panicking at parse, compile and match time and that the next call works.",
+  "text": "Exploration: schemes are built through the C constructors (the same registrations, incl. names with NUL / blanks / non-ASCII / invalid UTF-8, give the same answers, errors and scheme as the Rust builder); generated filters (well-typed, mutated, NUL-containing, invalid UTF-8) give the same parse outcome with last-error = ParseError text (NUL -> 0x1A), the same AST JSON, equal hashes for equal JSON, the same uses/uses_list, the same context serialisation (typed setters and JSON setter) and the same match results (also vs the reference evaluator); histories of failing/succeeding/clear calls over 12 kinds of failures check that every failure sets a well-formed, NUL-terminated last error with no interior NUL; two threads interleaved step by step see exactly the errors they see alone; filters at the regex-size and nesting limits give the same verdicts through both APIs; contexts filled in two steps keep what was there; a child process (hook installed before or after enabling) checks Status::Panic for a user function panicking at parse, compile and match time - also twice from one source line with different payloads - and that the next call works.",
   "note": "The extern C functions are called as Rust functions from the rlib; an abnormal child exit counts as a panic crossing the C boundary.",
   "ref": "DESIGN.md section 3, C20",
  },
@@ -57,13 +57,13 @@ CLAIMED = {
 
  "C09": {
   "technique": "exhaustive small-domain enumeration + property-based testing against a linear-scan reference",
-  "text": "Exploration: every list of <=3 (quick) / <=4 (thorough) inclusive ranges over a 7-point domain embedded order-preservingly into i64 / IPv4 (and an IPv6 analogue), written as values, a..b ranges and CIDRs, probed at every point, between points, with other-family addresses and the unset field; plus random lists of <=40 items (extremes, neighbours of earlier endpoints, /0, duplicates, mixed families, byte-string sets with shared prefixes) probed at every boundary +-1 and at values that alias a boundary in their low 16/32 bits, members stretched across 63..300 bytes, also under any(arr[*] in {...}); oracle = linear scan of the written items with own mask arithmetic.",
+  "text": "Exploration: every list of <=3 (quick) / <=4 (thorough) inclusive ranges over a 7-point domain embedded order-preservingly into i64 / IPv4 (and an IPv6 analogue), written as values, a..b ranges and CIDRs, probed at every point, between points, with other-family addresses and the unset field; plus random lists of <=40 items (extremes, neighbours of earlier endpoints, /0, duplicates, mixed families, byte-string sets with shared prefixes) probed at every boundary +-1 and at values that alias a boundary in their low 16/32 bits, members stretched across 63..300 bytes, also under any(arr[*] in {...}); also grid lists of 15..200 disjoint items over the whole domain and all/any-not/all-not forms under [*]; oracle = linear scan of the written items with own mask arithmetic.",
   "note": "Trusts the harness printer for literal forms; the exhaustive part is complete for the stated domain.",
   "ref": "DESIGN.md section 3, C09",
  },
  "C10": {
   "technique": "exhaustive (needle length x anchor) grid with constructed haystacks + property-based random cases, in two helper processes (AVX2 / scalar), naive window scan as oracle",
-  "text": "Exploration: needle lengths 0..=40 x every SIMD anchor (forced through the verif-hooks override) x needle kinds x ~1000 constructed haystacks per cell (offsets straddling every 16/32-byte block end, near-misses in first/last/anchor byte, prefixes/suffixes, decoys, small alphabets), random needles/haystacks up to 300 bytes, long needles and haystacks around the 16/32/64/256-byte thresholds, and the production path (random anchor) compiled 8 times; each in a process with AVX2 allowed and one with WIREFILTER_USE_AVX2=0; every execution compared with a naive scan.",
+  "text": "Exploration: needle lengths 0..=40 x every SIMD anchor (forced through the verif-hooks override) x needle kinds x ~1000 constructed haystacks per cell (offsets straddling every 16/32-byte block end, near-misses in first/last/anchor byte, prefixes/suffixes, decoys, small alphabets), random needles/haystacks up to 300 bytes, long needles and haystacks around the 16/32/64/256-byte thresholds, and the production path (random anchor) compiled 8 times; each in a process with AVX2 allowed and one with WIREFILTER_USE_AVX2=0; near-identical patterns compiled and kept alive together (also joined in one filter by and/or/xor); every execution compared with a naive scan.",
   "note": "Needs the verif-hooks feature (anchor override, SIMD-active query); evidence records whether the SIMD half was really exercised (CPU with AVX2).",
   "ref": "DESIGN.md section 3, C10",
  },
@@ -102,7 +102,7 @@ CLAIMED = {
 
  "C05": {
   "technique": "fuzzing: proptest string/token/mutation generators + stress inputs in child processes + libFuzzer (thorough), oracle inside the target",
-  "text": "Exploration: random Unicode strings, token soups over the language alphabet, string literals assembled from escapes, multi-byte characters and invalid-UTF-8 bytes in every literal slot (map key, right-hand sides, set member, regex, wildcard, function argument), valid generated filters with 1-4 character/token edits, and 1e5-long chains / 1e5-deep nestings (child process, 8 MiB stack) are fed to Scheme::parse and Scheme::parse_value; every outcome must be an AST (serialisable) or an error whose line/column/caret range lie inside the input line; panics, aborts and stack overflows are violations. The thorough tier adds 8 coverage-guided libFuzzer jobs with the same oracle inside the target.",
+  "text": "Exploration: random Unicode strings, token soups over the language alphabet, string literals assembled from escapes, multi-byte characters and invalid-UTF-8 bytes in every literal slot (map key, right-hand sides, set member, regex, wildcard, function argument), valid generated filters with 1-4 character/token edits, and 1e5-long chains / 1e5-deep nestings (child process, 8 MiB stack) are fed to Scheme::parse and Scheme::parse_value; every outcome must be an AST (serialisable) or an error whose line/column/caret range lie inside the input line; panics, aborts and stack overflows are violations. A function definition counts its parameter checks while call nests of depth 4/8/16 are parsed (accepted and rejected ones): growth by more than a factor 200 means work doubling per level, i.e. no termination in practice at depth 128. The thorough tier adds 8 coverage-guided libFuzzer jobs with the same oracle inside the target.",
   "note": "Stack budget 8 MiB in the harness profile; a hang is reported as inconclusive (watchdog), not as a violation; libFuzzer needs the nightly toolchain (if its build fails the campaign is skipped and the evidence says so).",
   "ref": "DESIGN.md section 3, C05",
  },
